@@ -149,7 +149,12 @@ def run_differential(prog, script, fail: Callable[[str, Optional[str]], None], c
                 try:
                     if pending_sub is not None:
                         # a subroutine compiled earlier is committed only now, after more operations were queued
-                        conn.commit_subroutine(pending_sub)
+                        # (every other time with a completion callback that does nothing: what is queued meanwhile stays queued)
+                        ahead["late"] = ahead.get("late", 0) + 1
+                        if ahead["late"] % 2:
+                            conn.commit_subroutine(pending_sub, block=False, callback=lambda: count("late_commit_callbacks", 1))
+                        else:
+                            conn.commit_subroutine(pending_sub)
                         pending_sub = None
                     if mode == "pre-late" and si < len(segs) - 1:
                         sub = conn.compile()
